@@ -131,6 +131,7 @@ func newExecutor(cp *corpus, progressFile string) (*executor, error) {
 	} else {
 		x.progress = make([]byte, 16)
 	}
+	binary.LittleEndian.PutUint64(x.progress[0:8], ^uint64(0))
 	x.srv = httptest.NewServer(http.HandlerFunc(x.handle))
 	x.httpc = &http.Client{Transport: &http.Transport{MaxIdleConnsPerHost: 8}, Timeout: 60 * time.Second}
 	x.store = gossip.NewRestSnapshotStore([]string{x.srv.URL}, 10*time.Second, 6*time.Hour)
@@ -245,6 +246,7 @@ func (x *executor) run(hc *hcase) (stages []stageRes, decoderRejected bool) {
 		x.mu.Lock()
 		x.cur = nil
 		x.mu.Unlock()
+		binary.LittleEndian.PutUint64(x.progress[0:8], ^uint64(0)) // between cases
 	}()
 	it := &x.cp.Items[hc.Item]
 	hasherF := hashing.NewSha256Hasher
@@ -522,11 +524,6 @@ func batchWorker(args []string) int {
 	if err := syscall.Setrlimit(syscall.RLIMIT_AS, lim); err != nil {
 		fmt.Fprintln(os.Stderr, "c12-batch: setrlimit:", err)
 	}
-	if pf := os.Getenv("QV_C12_PROF"); pf != "" {
-		f, _ := os.Create(pf)
-		pprof.StartCPUProfile(f)
-		defer pprof.StopCPUProfile()
-	}
 	runtime.MemProfileRate = 0
 	debug.SetGCPercent(400)
 	cp, err := loadCorpus(args[0])
@@ -564,6 +561,10 @@ func batchWorker(args []string) int {
 					fmt.Fprintf(os.Stderr, "c12-batch: case %d did not return within %v; goroutines:\n", idx, caseWatchdog)
 					pprof.Lookup("goroutine").WriteTo(os.Stderr, 2)
 					resMu.Lock()
+					if atomic.LoadInt64(&caseStart) != st { // it returned meanwhile
+						resMu.Unlock()
+						continue
+					}
 					br.HungCase = idx
 					if s, ok := x.stageNow.Load().(string); ok {
 						br.HungStage = s
